@@ -4,6 +4,7 @@ import (
 	"fmt"
 	"go/token"
 	"go/types"
+	"os"
 	"strings"
 
 	"golang.org/x/tools/go/ssa"
@@ -476,6 +477,9 @@ func (e *Enc) inline(fr *Frame, st *State, fn *ssa.Function, binds []*Val, args 
 func (e *Enc) defaultCall(fr *Frame, st *State, key string, args []*Val, rt types.Type, hint string, pos token.Pos) *Val {
 	if e.dry == 0 {
 		e.unspecCalls[key]++
+		if os.Getenv("VERIF_DEBUG") != "" {
+			fmt.Fprintf(os.Stderr, "debug: unspecified call %s in %s\n", key, fr.fn)
+		}
 	}
 	mutates := false
 	for _, a := range args {
